@@ -331,6 +331,10 @@ CORE_MENU = ["aa:A:x", "ii:i:+5", "ff:f:.5", "zz:Z:a b", 'jj:J:{"a" : [1 ]}',
              "hh:H:1AF0", "bb:B:I,1,2", "bb:B:s,-1,128", "zz:Z:trailing blanks  "]
 
 
+GFA2_FOREIGN_NAMES = ["LN:i:7", "ID:Z:q", "MQ:i:3", "NM:i:0", "SN:Z:chr", "SO:i:0"]
+GFA1_FOREIGN_NAMES = ["TS:i:5", "SH:H:1A", "UR:Z:u", "pn:Z:a", "sl:i:3"]
+
+
 def tag_documents(all_pairs=True):
   docs = []
   for version, table in (("gfa1", GFA1_T), ("gfa2", GFA2_T)):
@@ -348,6 +352,12 @@ def tag_documents(all_pairs=True):
       menu = [t for t in TAG_MENU if t[:2] not in existing]
       for t in menu:
         docs.append(("tags:" + rt, version, base[:-1] + [line + "\t" + t]))
+      # tags named like a predefined tag of the OTHER version or like a field
+      # alias of the record (LN is an alias of slen on GFA2 segments, ...)
+      for t in (GFA2_FOREIGN_NAMES if version == "gfa2" else
+                GFA1_FOREIGN_NAMES):
+        if t[:2] not in existing:
+          docs.append(("tags:" + rt, version, base[:-1] + [line + "\t" + t]))
       for t1, t2 in itertools.combinations(menu, 2):
         if t1[:2] == t2[:2]:
           continue
